@@ -174,6 +174,114 @@ theorem C24_bulk_delete (rows : List α) (sel : α → Bool) :
 example : ponyCount [some 3, none, some 3, some 5] none = 2 ∧ ponyCount [some 3, none, some 3, some 5] (some false) = 3 := by decide
 example : ponySum [some 3, none, some 3] true = 3 ∧ ponySum [none] false = 0 := by decide
 
+/-! ### avg, group_concat, random(), chained filter / order_by -/
+
+/-- `avg()` is `None` exactly when there is no non-missing value; otherwise it is the quotient of Python's `sum` and `len`
+    of the operand (the non-missing values, or their set with `distinct=True`), and the divisor is never 0. -/
+theorem C24_avg (col : List (Option Int)) (d : Bool) :
+    (sqlAvg col d = none ↔ operand col d = []) ∧
+    (∀ s n, sqlAvg col d = some (s, n) → s = (operand col d).sum ∧ n = (operand col d).length ∧ 0 < n) := by
+  unfold sqlAvg
+  cases hl : operand col d with
+  | nil => simp
+  | cons x xs =>
+    simp only [reduceCtorEq, true_and, Option.some.injEq, Prod.mk.injEq]
+    intro s n h
+    refine ⟨h.1.symm, h.2.symm, ?_⟩
+    have := h.2; simp at this; omega
+
+/-- `group_concat(sep)` is `None` for no non-missing value, else `sep.join` of the non-missing values in result order. -/
+theorem C24_group_concat (col : List (Option String)) (sep : String) :
+    (groupConcat col sep = none ↔ col.filterMap id = []) ∧
+    (col.filterMap id ≠ [] → groupConcat col sep = some (sep.intercalate (col.filterMap id))) := by
+  unfold groupConcat
+  cases hl : col.filterMap id with
+  | nil => simp
+  | cons x xs => simp
+
+/-- `random(n)`: a list is an acceptable outcome exactly when it is the first `n` rows of some permutation of the
+    full result — i.e. `min n |R|` rows drawn without replacement. -/
+theorem C24_random (R res : List Int) (n : Nat) :
+    isSample R res n = true ↔ ∃ p : List Int, p.Perm R ∧ res = p.take n := by
+  simp only [isSample, Bool.and_eq_true, beq_iff_eq, subBag_iff]
+  constructor
+  · rintro ⟨hlen, rest, hp⟩
+    refine ⟨res ++ rest, hp, ?_⟩
+    have hl : res.length + rest.length = R.length := by simpa using hp.length_eq
+    by_cases hn : n ≤ R.length
+    · have : res.length = n := by omega
+      rw [← this]; simp
+    · have h1 : res.length = R.length := by omega
+      have : rest = [] := List.eq_nil_of_length_eq_zero (by omega)
+      subst this
+      simp only [List.append_nil]
+      exact (List.take_of_length_le (by omega)).symm
+  · rintro ⟨p, hp, rfl⟩
+    refine ⟨by simp [hp.length_eq], p.drop n, ?_⟩
+    simpa using hp
+
+/-- chained `filter`/`where` calls select what the conjunction selects, in the same order. -/
+theorem C24_filter_chain (R : List α) (p q : α → Bool) :
+    (R.filter p).filter q = R.filter (fun x => p x && q x) := by
+  simp [List.filter_filter, Bool.and_comm]
+
+/-- `q.order_by(a).order_by(b)` (the newer criterion is PREPENDED by Pony) returns a permutation of the result that is
+    sorted by `b` and, among rows with equal `b`, by `a` — the SQL meaning of `ORDER BY b, a`, and Python's
+    `sorted(sorted(R, key=a), key=b)`. -/
+theorem C24_order_chain (R : List α) (a b : α → Int) :
+    (orderChain R a b).Perm R ∧ LexSorted a b (orderChain R a b) := by
+  unfold orderChain LexSorted
+  refine ⟨(List.mergeSort_perm _ _).trans (List.mergeSort_perm _ _), ?_⟩
+  let T := R.mergeSort (byKey a)
+  let S := T.mergeSort (byKey b)
+  have hT : T.Pairwise (fun x y => byKey a x y = true) := List.pairwise_mergeSort (byKey_trans a) (byKey_total a) R
+  have hS : S.Pairwise (fun x y => byKey b x y = true) := List.pairwise_mergeSort (byKey_trans b) (byKey_total b) T
+  have hperm : S.Perm T := List.mergeSort_perm T (byKey b)
+  -- every class of rows with equal `b` keeps the order it had in `T`
+  have hclass : ∀ v : Int, S.filter (fun x => b x == v) = T.filter (fun x => b x == v) := by
+    intro v
+    let pv : α → Bool := fun x => b x == v
+    have hsub : List.Sublist (T.filter pv) T := List.filter_sublist
+    have hpw : (T.filter pv).Pairwise (fun x y => byKey b x y = true) :=
+      pairwise_of_all_eq (v := v) (fun x hx => by simpa [pv] using (List.mem_filter.mp hx).2)
+    have h1 : List.Sublist (T.filter pv) S := List.sublist_mergeSort (byKey_trans b) (byKey_total b) hpw hsub
+    have h2 : List.Sublist (T.filter pv) (S.filter pv) := by
+      have := h1.filter pv
+      simpa [List.filter_filter] using this
+    have hlen : (S.filter pv).length = (T.filter pv).length := (hperm.filter pv).length_eq
+    exact (h2.eq_of_length hlen.symm).symm
+  rw [List.pairwise_iff_forall_sublist]
+  intro x y hxy
+  have hb : b x ≤ b y := by
+    have := (List.pairwise_iff_forall_sublist.mp hS) hxy
+    simpa [byKey] using this
+  rcases Int.lt_or_eq_of_le hb with hlt | heq
+  · exact Or.inl hlt
+  · refine Or.inr ⟨heq, ?_⟩
+    have hf : List.Sublist [x, y] (S.filter (fun z => b z == b x)) := by
+      have := hxy.filter (fun z => b z == b x)
+      simpa [heq] using this
+    rw [hclass (b x)] at hf
+    have hA : (T.filter (fun z => b z == b x)).Pairwise (fun x y => byKey a x y = true) := hT.sublist List.filter_sublist
+    have := (List.pairwise_iff_forall_sublist.mp hA) hf
+    simpa [byKey] using this
+
+/-- when the two keys together identify a row, `ORDER BY b, a` has exactly one answer: whatever permutation of `R` is
+    sorted that way (what the database returns) IS the double stable sort. -/
+theorem C24_order_chain_unique (R S : List α) (a b : α → Int)
+    (hinj : ∀ x ∈ R, ∀ y ∈ R, a x = a y → b x = b y → x = y)
+    (hperm : S.Perm R) (hsorted : LexSorted a b S) : S = orderChain R a b := by
+  have h := C24_order_chain R a b
+  refine List.Perm.eq_of_pairwise (le := fun x y => b x < b y ∨ (b x = b y ∧ a x ≤ a y)) ?_ hsorted h.2 (hperm.trans h.1.symm)
+  intro x y hx hy h1 h2
+  have hxR : x ∈ R := hperm.subset hx
+  have hyR : y ∈ R := h.1.subset hy
+  apply hinj x hxR y hyR <;> omega
+
+example : isSample [1, 2, 2, 3] [2, 2] 2 = true ∧ isSample [1, 2, 3] [2, 2] 2 = false ∧ isSample [1, 2] [2, 1] 5 = true := by decide
+example : sqlAvg [some 3, none, some 3, some 6] false = some (12, 3) ∧ sqlAvg [some 3, none, some 3, some 6] true = some (9, 2) ∧ sqlAvg [none] false = none := by decide
+example : ∀ x ∈ [((2 : Int), (1 : Int)), (1, 1), (2, 0)], ∀ y ∈ [((2 : Int), (1 : Int)), (1, 1), (2, 0)], x.1 = y.1 → x.2 = y.2 → x = y := by decide
+
 /-! ### non-vacuity: concrete instances -/
 example : window (combineT (some 5) (some 1) (some 2) (some 3)) [0,1,2,3,4,5,6,7,8,9] = [4, 5] := by decide
 example : window (getitemT (some 2) (some 5)) [0,1,2,3,4,5,6] = [2,3,4] := by decide
